@@ -525,6 +525,8 @@ class Gen:
             op["intent"] = f"{intent}@{k}:{how}"
         if kind == "evo_dispense" and rng.random() < 0.5:
             op["comps"] = [enc(dyadic_composition(rng)) for _ in flat]
+        if isinstance(op["wells"], list) and len(op["wells"]) > 1 and rng.random() < 0.15:
+            op["wcol"] = True
         return op
 
     # ------------------------------------------------------------------ non-liquid records
